@@ -56,12 +56,12 @@ def parts(ck):
         enum("h_c14s8", ["--nw=1", "--budget=2", "--pre=all"], "r8-1w-b2", 50, 300)
         enum("h_c14s8p", ["--nw=1", "--budget=3", "--pre=all"], "r8-1w-b3", 20, 600)
         enum("h_c14s8", ["--nw=2", "--budget=1", "--pre=none"], "r8-2w-b1-asan", 200, 500)
-        enum("h_c14s8p", ["--nw=2", "--budget=2", "--pre=none", "--lfeach=3"], "r8-2w-b2", 50, 900)
-        enum("h_c14s8p", ["--nw=3", "--budget=0", "--pre=none", "--lfeach=2", "--kinds=1"], "r8-3w-b0", 2000, 400)
-        enum("h_c14s8p", ["--nw=3", "--budget=1", "--pre=none", "--lfeach=0", "--maxlen=9", "--kinds=1"], "r8-3w-b1", 500, 600)
+        enum("h_c14s8p", ["--nw=2", "--budget=2", "--pre=none", "--maxlen=9", "--lfeach=2", "--longlf=2"], "r8-2w-b2", 50, 600)
+        enum("h_c14s8p", ["--nw=3", "--budget=0", "--pre=none", "--lfeach=2", "--longlf=2", "--kinds=1"], "r8-3w-b0", 2000, 400)
+        enum("h_c14s8p", ["--nw=3", "--budget=1", "--pre=none", "--lfeach=0", "--longlf=2", "--maxlen=9", "--kinds=1"], "r8-3w-b1", 500, 700)
         enum("h_c14s16", ["--nw=1", "--budget=1", "--pre=all"], "r16-1w-b1-asan", 50, 300)
         enum("h_c14s16p", ["--nw=1", "--budget=2", "--pre=two"], "r16-1w-b2", 20, 600)
-        enum("h_c14s16p", ["--nw=2", "--budget=1", "--pre=none", "--lfeach=2"], "r16-2w-b1", 100, 600)
+        enum("h_c14s16p", ["--nw=2", "--budget=1", "--pre=none", "--maxlen=18", "--lfeach=0", "--longlf=2"], "r16-2w-b1", 100, 600)
         enum("h_c14", ["--nw=1", "--budget=2"], "r4096-1w-b2", 10, 600)
         enum("h_c14p", ["--nw=2", "--budget=1"], "r4096-2w-b1", 50, 600)
         explore("h_c14s8p", ["--nw=1"], "x-r8-1w", 2, 400)
